@@ -273,3 +273,15 @@ package satisfaction_levels
 //@   property C14 C07 C18
 //@   nopanic
 //@   ensures [unchanged] result == params
+
+// ---- the update listener of the level source a request names (used by the heuristics' bias listeners)
+//@ func (*SatisfactionLevelsUpdateListeners).Fetch
+//@   property C07 C12 C13 C20 C15 C18
+//@   panics_iff [unknown_source] !(listenerName in sl.Listeners)
+//@   ensures [registered_under_that_name] result != nil && fresh(result) && *result == sl.Listeners[listenerName]
+//@ func (*SatisfactionLevelsUpdateListeners).Get
+//@   property C07 C12 C13 C20 C15 C18
+//@   ensures [listener_of_the_named_source] listenerName in sl.Listeners && result0 == sl.Listeners[listenerName]
+//@ func (*IdealCoefficientSatisfactionLevels).HasNext
+//@   property C14 C12 C13
+//@   ensures [the_managers_answer] true
